@@ -14,7 +14,7 @@ RUNS = {"quick": 48000, "thorough": 400000, "thorough_s": 240}
 CHUNK = 1000
 RULE = ("seeded histories of 1..60 operations (add present/absent, remove by value, remove by position "
         "first/last/middle of the current iteration order, drain to empty, re-insert, draw, contains, len, "
-        "iterate, remove-absent as injected invalid operation, coverage bursts) over universes of 1..8 "
+        "iterate, remove-absent as injected invalid operation, coverage bursts, exact coverage by enumerating the draw's decision) over universes of 1..8 "
         "elements (edge tuples rebuilt as fresh equal objects, ints, strings, mixed); draw decisions under "
         "uniform/min/max/sticky/mix policies; a run is non-trivial when it mutated the set at least twice; "
         "distinct = distinct execution digests (operations, results and RNG decisions)")
@@ -62,7 +62,7 @@ def generate(prng, tier, index):
     # swarm: per-run operation mix
     w = {"add": prng.choice((1, 3, 6)), "remove": prng.choice((1, 3, 6)), "remove_pos": prng.choice((0, 2, 4)),
          "draw": prng.choice((0, 2, 5)), "contains": prng.choice((0, 1)), "iter": prng.choice((0, 1)),
-         "drain": prng.choice((0, 0, 1)), "cover": prng.choice((0, 0, 1)),
+         "drain": prng.choice((0, 0, 1)), "cover": prng.choice((0, 0, 1)), "cover_exact": prng.choice((0, 1, 1)),
          "remove_absent": (prng.choice((1, 2)) if variant == "faults" else 0)}
     if n > 130:
         w["cover"] = 0          # a coverage burst costs n (ln n + 30) instrumented draws; small universes exercise that clause
@@ -240,6 +240,49 @@ def execute(sc, ctx):
             if seen != model:
                 ctx.violate("C20.coverage", f"{len(model) - len(seen)} of {n} members never drawn in "
                                              f"{need} uniform draws at {after}")
+        elif op == "cover_exact":
+            # the simulator CHOOSES the decision, so "every member can be drawn" can be decided exactly: if a draw is
+            # one integer request of size len(set), answering it with 0 .. n-1 in turn must return every member
+            n = len(model)
+            if n == 0:
+                continue
+            from ..simrandom import Source
+            seen = set()
+            enumerable = True
+            # first call reveals the shape of the draw's randomness: exactly one integer request of some size m (any
+            # m, not necessarily n) is enumerable - answering it with all m values gives the complete image of draw()
+            probe = Source("u:enum", None, None, script=[0], tail="zero")
+            probe.requests = []
+            st, v = ctx.call(probe, ds.draw, label="draw[enumerated]")
+            if st != "ok":
+                ctx.violate("C20.raised", f"draw raised {describe_exc(v)} at {after}")
+                return
+            if len(probe.requests) != 1 or probe.requests[0][0] != "i" or probe.requests[0][1] > 4 * n + 16:
+                enumerable = False
+            else:
+                m = probe.requests[0][1]
+                for i in range(m):
+                    one = Source("u:enum", None, None, script=[i], tail="zero")
+                    one.requests = []
+                    st, v = ctx.call(one, ds.draw, label="draw[enumerated]")
+                    if st != "ok":
+                        ctx.violate("C20.raised", f"draw raised {describe_exc(v)} at {after}")
+                        return
+                    if one.requests != [("i", m)]:
+                        enumerable = False
+                        break
+                    if v not in model:
+                        ctx.violate("C20.draw", f"draw returned {v!r}, not a current member, at {after}")
+                        return
+                    seen.add(v)
+            if enumerable:
+                ctx.check("C20.coverage")
+                ctx.probe("coverage_decided_by_enumeration")
+                if seen != model:
+                    ctx.violate("C20.coverage", f"{len(model) - len(seen)} of {n} members can never be drawn: answering the draw's "
+                                                f"single random request with every possible value returns only {len(seen)} distinct members at {after}")
+            else:
+                ctx.probe("coverage_not_enumerable")
         elif op == "contains":
             pass  # membership over the whole universe is compared below after every operation
         elif op == "iter":
@@ -266,7 +309,7 @@ def shrink(sc):
         if op == "drain":
             yield dict(sc, ops=ops[:i] + [["remove_pos", "first"]] + ops[i + 1:])
         if op == "cover":
-            yield dict(sc, ops=ops[:i] + [["draw", 0]] + ops[i + 1:])
+            yield dict(sc, ops=ops[:i] + [["cover_exact", 0]] + ops[i + 1:])
     if len(sc["universe"]) > 1:
         yield dict(sc, universe=sc["universe"][:-1])
     if sc.get("policy", {}).get("int") != "uniform":
